@@ -126,14 +126,15 @@ namespace bloch::update {
             }
         }
 
-        void saveCache(const UpdateCache& cache) {
+        // Returns false when the cache could not be written.
+        bool saveCache(const UpdateCache& cache) {
             const auto path = cacheFilePath();
             std::error_code ec;
             std::filesystem::create_directories(path.parent_path(), ec);
 
             std::ofstream out(path, std::ios::trunc);
             if (!out)
-                return;
+                return false;
 
             const auto toSeconds = [](Clock::time_point tp) {
                 return std::chrono::duration_cast<std::chrono::seconds>(tp.time_since_epoch())
@@ -143,6 +144,8 @@ namespace bloch::update {
             out << toSeconds(cache.lastChecked) << "\n";
             out << cache.latestVersion << "\n";
             out << toSeconds(cache.lastNotified) << "\n";
+            out.flush();
+            return static_cast<bool>(out);
         }
 
         // What may follow the numeric components: nothing, or a pre-release / build suffix
@@ -345,12 +348,19 @@ namespace bloch::update {
             if (compareSemVer(current, latest) >= 0)
                 return false;
 
+            // The throttle must be on disk before the notice is shown: with a cache that cannot
+            // be written the notice would otherwise be repeated on every invocation.
+            UpdateCache updated = cache;
+            updated.lastNotified = now;
+            updated.latestVersion = latestVersion;
+            if (!saveCache(updated))
+                return false;
+            cache = updated;
+
             const auto label = changeLabel(current, latest);
             std::cout << "There is a new " << label << " version of Bloch, " << latestVersion
                       << ". You currently have " << currentVersion
                       << ". To install the latest run bloch --update." << std::endl;
-            cache.lastNotified = now;
-            cache.latestVersion = latestVersion;
             return true;
         }
 
